@@ -542,3 +542,77 @@ def family_F(seed: int, count: int, *, min_states=4, max_states=7) -> List[Spec]
         sp.label = f"F-{seed}-{i}"
         out.append(sp)
     return out
+
+
+# ---------------------------------------------------------------------------------------
+# Family R: reactions -- raise / assign in transition, entry and exit actions, finals, small bound
+
+def family_R(seed: int, count: int) -> List[Spec]:
+    rng = random.Random(seed)
+    out = []
+    evs = ["E1", "E2", "E3"]
+    for i in range(count):
+        root = Node("m", "compound")
+        use_par = rng.random() < 0.5
+        leaves: List[Node] = []
+        if use_par:
+            par = root.add(Node("p", "parallel"))
+            root.initial = "p"
+            for j in range(2):
+                r = par.add(Node("r" + str(j + 1), "compound"))
+                for k2 in range(2):
+                    leaves.append(r.add(Node(f"l{j + 1}{k2 + 1}", "atomic")))
+                if rng.random() < 0.5:
+                    r.add(Node(f"f{j + 1}", "final"))
+                r.initial = r.kids[0].key
+        else:
+            for k2 in range(3):
+                leaves.append(root.add(Node("l" + str(k2 + 1), "atomic")))
+            root.initial = "l1"
+        fin = root.add(Node("fin", "final"))
+        other = root.add(Node("z", "atomic"))
+        cfg = tree_to_config(root)
+        cfg["context"] = {"k": 0}
+        cfg["maxIterations"] = rng.choice([3, 4, 6])
+        nodes = [n for n in root.walk()]
+        tcount = 0
+
+        def extra_actions() -> List[Any]:
+            acts: List[Any] = []
+            r = rng.random()
+            if r < 0.35:
+                acts.append({"type": "xstate.raise", "params": {"event": rng.choice(evs)}})
+            elif r < 0.55:
+                acts.append({"type": "xstate.assign", "params": {"assignment": {"k": rng.choice([1, 2])}}})
+            return acts
+
+        for ev in evs:
+            for n in nodes:
+                if n.kind in ("final", "history") or rng.random() > 0.5:
+                    continue
+                tcount += 1
+                t: Dict[str, Any] = {"actions": [f"tr:{ev}:{tcount}"] + extra_actions()}
+                if rng.random() < 0.3:
+                    t["guard"] = rng.choice(["g1", "g2"])
+                r = rng.random()
+                cands = [x for x in nodes if x is not root and x.kind != "history"]
+                if r < 0.25:
+                    pass
+                elif r < 0.4:
+                    t["target"] = "#m.fin"
+                else:
+                    t["target"] = "#" + ".".join(rng.choice(cands).path)
+                find(cfg, n.path).setdefault("on", {})[ev] = t
+        for n in nodes:
+            if n.kind == "atomic" and rng.random() < 0.25:
+                find(cfg, n.path)["entry"] = find(cfg, n.path)["entry"] + extra_actions()
+            if n.kind == "atomic" and rng.random() < 0.15:
+                find(cfg, n.path)["exit"] = find(cfg, n.path)["exit"] + extra_actions()
+        if use_par and rng.random() < 0.6:
+            tcount += 1
+            find(cfg, ["m", "p"])["onDone"] = {"target": rng.choice(["#m.z", "#m.fin"]),
+                                               "actions": [f"tr:done:{tcount}"] + extra_actions()}
+        if rng.random() < 0.4:
+            find(cfg, fin.path)["output"] = "out_fin"
+        out.append(Spec(cfg, "R", f"R-{seed}-{i}"))
+    return out
